@@ -96,7 +96,7 @@ func NamedSubtype(n string, v interface{}, st string) Arg {
 			return nil
 		}
 
-		n = strings.ToLower(n)
+		n := strings.ToLower(n)
 		if a.namedSub[n] == nil {
 			a.namedSub[n] = map[string]reflect.Value{}
 		}
